@@ -15,9 +15,19 @@ string object_name (object ob) { return ob->vname (); }
 // safe_apply made by the compiler error logging: prints the message so that a compile error in a generated program is visible
 void log_error (string f, string m) { VL ("compile " + m); }
 
+// spare objects (refilled by prep() of the test object, outside the evaluation under test): the error handler
+// destructs one of them each time it runs.  error_handler() of the driver must have cleared restrict_destruct
+// BEFORE it calls this function, also for an error that a catch() will receive; otherwise the destruct below
+// raises "Only this_object() can be destructed from move_or_destruct" inside the mudlib error handler and the
+// catch yields that message instead of the one that was raised.
+object *spares = ({ });
+void refill (int n) { spares -= ({ 0 }); while (sizeof (spares) < n) spares += ({ new ("/c05/box") }); }
+
 string error_handler (mapping m, int caught) {
   string e = m["error"];
+  object o;
   if (!stringp (e)) e = "?";
   VL ((caught ? "caught " : "err ") + e);
+  if (sizeof (spares)) { o = spares[0]; spares = spares[1..]; if (o) destruct (o); }
   return "";
 }
